@@ -8,6 +8,11 @@
 //!   keeps the connection open: each must arrive while nothing else happens).  Oracle =
 //!   the property statement (a direct connection): exact bytes both ways, end-of-stream propagated
 //!   per direction while the other direction keeps working, close/refusal ends the local connection.
+//!   Late-reading peers (`mode=late-target`, `mode=late-client`): one end says what it has to say (a short
+//!   reply or nothing), half-closes AT ONCE, makes its receive buffer small and does not read for a while
+//!   (0.3 .. 2.5 s), then reads slowly or at full speed; the other end reads that to end-of-stream, writes
+//!   64 KiB .. 3 MiB, half-closes and closes.  The late reader must get every byte and then a clean
+//!   end-of-stream, never a reset (a direct connection keeps delivering after the writer's close).
 //! * udp: 1-4 local UDP clients x tagged echo targets through the UDP remotes or SOCKS5 UDP
 //!   associations; every reply at exactly the originating socket, from the address it sent to,
 //!   payload unmodified, (SOCKS5) behind a well-formed RFC 1928 header.
@@ -36,6 +41,8 @@ use pvhf::{Args, Driver, FailKind, Report, Rng, Tier, Value, fnv, json};
 use std::sync::Arc;
 use std::time::{Duration, Instant};
 use tcp::{check_conn, run_conn, ConnObs, Entry, Mode, TcpScn, ALL_MODES, ENTRIES, MODES};
+
+const KIB: usize = 1024;
 use udp::{run_udp, Junk, JunkKind, OneWay, UdpOutcome, UdpScn, JUNK_KINDS};
 use world::{World, SLOTS};
 
@@ -222,7 +229,7 @@ fn random_tcp(r: &mut Rng, tier: Tier, entry: Option<Entry>, mode: Option<Mode>)
         _ => {}
     }
     let slow_ms = if r.chance(1, 6) { *r.pick(&[50u64, 300]) } else { 0 };
-    TcpScn { entry, mode, up, down, upc: chunk_for(r, up), downc: chunk_for(r, down), slow_ms, seed: r.next() % 1_000_000_000 }
+    TcpScn { entry, mode, up, down, upc: chunk_for(r, up), downc: chunk_for(r, down), slow_ms, seed: r.next() % 1_000_000_000, rcvbuf: 0, pace_ms: 0 }
 }
 
 /// A dialogue after a half-close: the first payload is any size; the direction that stays open carries
@@ -242,9 +249,9 @@ fn random_hold(r: &mut Rng, tier: Tier, entry: Entry, mode: Mode) -> TcpScn {
     let slow_ms = *r.pick(&[0u64, 0, 0, 20, 120]);
     let seed = r.next() % 1_000_000_000;
     if mode == Mode::ClientFirstHold {
-        TcpScn { entry, mode, up: first, down: held, upc: firstc, downc: heldc, slow_ms, seed }
+        TcpScn { entry, mode, up: first, down: held, upc: firstc, downc: heldc, slow_ms, seed, rcvbuf: 0, pace_ms: 0 }
     } else {
-        TcpScn { entry, mode, up: held, down: first, upc: heldc, downc: firstc, slow_ms, seed }
+        TcpScn { entry, mode, up: held, down: first, upc: heldc, downc: firstc, slow_ms, seed, rcvbuf: 0, pace_ms: 0 }
     }
 }
 
@@ -261,9 +268,9 @@ fn half_close_pass(r: &mut Rng, tier: Tier) -> Vec<Scn> {
             let firstc = chunk_for(r, first);
             let seed = r.next() % 1_000_000_000;
             all.push(if mode == Mode::ClientFirstHold {
-                TcpScn { entry: *e, mode, up: first, down: held, upc: firstc, downc: heldc, slow_ms, seed }
+                TcpScn { entry: *e, mode, up: first, down: held, upc: firstc, downc: heldc, slow_ms, seed, rcvbuf: 0, pace_ms: 0 }
             } else {
-                TcpScn { entry: *e, mode, up: held, down: first, upc: heldc, downc: firstc, slow_ms, seed }
+                TcpScn { entry: *e, mode, up: held, down: first, upc: heldc, downc: firstc, slow_ms, seed, rcvbuf: 0, pace_ms: 0 }
             });
         };
         // (a) one short answer after the client's half-close
@@ -292,11 +299,72 @@ fn half_close_pass(r: &mut Rng, tier: Tier) -> Vec<Scn> {
     all.chunks(SLOTS).map(|c| Scn::Tcp(c.to_vec())).collect()
 }
 
+/// Late-reading peers, every entry point kind.  `late-target`: the target accepts, sends a short reply (0 .. 300
+/// bytes), half-closes at once, shrinks its receive buffer and does not read for `slow` ms; the client reads the
+/// reply to end-of-stream, uploads `up` bytes (more than the socket buffers hold), half-closes and closes; the
+/// target then reads (`pace` ms after every read of at most 32 KiB) and must get exactly `up` bytes and a clean
+/// end-of-stream: the tail of the upload is still in the SERVER's send buffer towards the target when the tunnel
+/// has nothing more to do with that connection.  `late-client` is the mirror image (the local client reads late,
+/// the target uploads), judged at the client.  Up to four such connections run side by side.
+fn late_pass(r: &mut Rng, tier: Tier) -> Vec<Scn> {
+    let delays = [300u64, 1000, 2500];
+    let bulks = [64 * KIB, 300 * KIB, 1 << 20, 3 << 20];
+    let mut all: Vec<TcpScn> = vec![];
+    let mut mk = |r: &mut Rng, entry: Entry, mode: Mode, bulk: usize, slow_ms: u64, rcvbuf: usize, pace_ms: u64| {
+        let short = *r.pick(&[0usize, 1, 100, 300]);
+        let bulkc = match r.below(3) {
+            0 => Chunk::Whole,
+            1 => Chunk::Fixed(*r.pick(&[8192usize, 65_536])),
+            _ => Chunk::Random(r.next() % 1_000_000, (bulk / 8).clamp(2, 70_000)),
+        };
+        let seed = r.next() % 1_000_000_000;
+        all.push(if mode == Mode::LateTarget {
+            TcpScn { entry, mode, up: bulk, down: short, upc: bulkc, downc: Chunk::Whole, slow_ms, seed, rcvbuf, pace_ms }
+        } else {
+            TcpScn { entry, mode, up: short, down: bulk, upc: Chunk::Whole, downc: bulkc, slow_ms, seed, rcvbuf, pace_ms }
+        });
+    };
+    let start = r.below(ENTRIES.len() as u64) as usize;
+    let entry = |k: usize| ENTRIES[(start + k) % ENTRIES.len()];
+    match tier {
+        Tier::Quick => {
+            // six late targets and two late clients over eight entry point kinds (which ones: by the seed), delays of
+            // at most 1 s, always a slow reader behind a small receive buffer
+            for k in 0..6 {
+                let bulk = [1 << 20, 300 * KIB, 1 << 20, 64 * KIB, 300 * KIB, 1 << 20][k];
+                mk(r, entry(k), Mode::LateTarget, bulk, delays[k % 2], [16 * KIB, 32 * KIB, 64 * KIB][k % 3], [3u64, 5, 2][k % 3]);
+            }
+            for k in 6..8 {
+                mk(r, entry(k), Mode::LateClient, [300 * KIB, 1 << 20][k % 2], delays[k % 2], [16 * KIB, 32 * KIB][k % 2], 3);
+            }
+        }
+        Tier::Thorough => {
+            for i in 0..ENTRIES.len() {
+                // four late targets per entry point kind: the 12 (delay, size) pairs go round the kinds; mostly a
+                // small receive buffer and a slow reader, now and then the default buffer / reading at full speed
+                for j in 0..4 {
+                    let n = i * 4 + j;
+                    let (d, b) = (delays[n % 12 % 3], bulks[n % 12 / 3]);
+                    let rcvbuf = [16 * KIB, 32 * KIB, 64 * KIB, 0, 16 * KIB][n % 5];
+                    let pace = [3u64, 5, 0, 2, 1, 8, 3][n % 7];
+                    mk(r, entry(i), Mode::LateTarget, b, d, rcvbuf, pace);
+                }
+                for j in 0..2 {
+                    let n = i * 2 + j;
+                    let (d, b) = (delays[(n + 5) % 12 % 3], bulks[(n + 5) % 12 / 3]);
+                    mk(r, entry(i), Mode::LateClient, b, d, [16 * KIB, 0, 64 * KIB][n % 3], [3u64, 0, 5, 2][n % 4]);
+                }
+            }
+        }
+    }
+    all.chunks(SLOTS).map(|c| Scn::Tcp(c.to_vec())).collect()
+}
+
 /// Several windows (512 frames) of data against a reader that starts late: 5 MiB in 8 KiB frames.
 fn windows_scn(r: &mut Rng, entry: Entry, upward: bool) -> TcpScn {
     let big = 5 * (1 << 20) + 3;
     let (up, down, mode) = if upward { (big, 10, Mode::ClientFirst) } else { (10, big, Mode::TargetFirst) };
-    TcpScn { entry, mode, up, down, upc: Chunk::Fixed(65536), downc: Chunk::Fixed(65536), slow_ms: 400, seed: r.next() % 1_000_000_000 }
+    TcpScn { entry, mode, up, down, upc: Chunk::Fixed(65536), downc: Chunk::Fixed(65536), slow_ms: 400, seed: r.next() % 1_000_000_000, rcvbuf: 0, pace_ms: 0 }
 }
 
 fn random_udp(r: &mut Rng, socks: bool) -> UdpScn {
@@ -490,6 +558,8 @@ fn fixed_pass(r: &mut Rng, tier: Tier) -> Vec<Scn> {
     v.extend(junk_pass(r, tier));
     // dialogues after a half-close, every entry point kind
     v.extend(half_close_pass(r, tier));
+    // late-reading peers, every entry point kind
+    v.extend(late_pass(&mut r.fork(4), tier));
     v
 }
 
@@ -607,7 +677,7 @@ fn main() {
     if let Some(p) = &args.replay {
         std::process::exit(replay(p));
     }
-    let rule = "scenario = 1-4 concurrent local TCP connections (entry point kind, close order incl. dialogues after a half-close, payload sizes, chunkings) or one UDP \
+    let rule = "scenario = 1-4 concurrent local TCP connections (entry point kind, close order incl. dialogues after a half-close and peers that half-close at once and read late, payload sizes, chunkings) or one UDP \
 scenario (1-4 local UDP clients x tagged echo targets x payload sizes, via UDP remotes or SOCKS5 UDP associations; also after an idle \
 time, one-way streams longer than two idle timeouts that the target answers only at the end, and exchanges after a malformed \
 datagram on the relay socket of a SOCKS5 association, and long flows: up to 1100 exchanges on the same sockets, more than \
@@ -766,6 +836,8 @@ was propagated; distinct by scenario text";
     let (mut hdr_remote, mut hdr_client, mut hdr_other) = (0usize, 0usize, 0usize);
     // dialogues after a half-close: messages awaited, slowest confirmation
     let (mut hold_msgs, mut hold_max_ms) = (0usize, 0u64);
+    // late-reading peers: connections, bytes read by the late reader, of them complete with a clean end-of-stream
+    let (mut late_conns, mut late_bytes, mut late_clean, mut late_max_ms) = (0usize, 0usize, 0usize, 0u64);
     for (i, sc) in scs.iter().enumerate() {
         let (mut out, mt) = outcomes[i].take().expect("outcome");
         if let Outcome::Infra(e) = &out {
@@ -855,6 +927,15 @@ was propagated; distinct by scenario text";
                 hold_msgs += s.confirm_ms.len();
                 hold_max_ms = hold_max_ms.max(s.confirm_ms.iter().copied().max().unwrap_or(0));
             }
+            if let Scn::Tcp(v) = sc {
+                for (s, c) in v.iter().zip(obs.iter()).filter(|(s, _)| s.mode.is_late()) {
+                    let (late, bulk) = if s.mode == Mode::LateTarget { (c.target.as_ref(), s.up) } else { (Some(&c.client), s.down) };
+                    late_conns += 1;
+                    late_bytes += late.map_or(0, |l| l.received.len());
+                    late_clean += usize::from(late.is_some_and(|l| l.received.len() == bulk && l.saw_eof && l.read_err.is_none()));
+                    late_max_ms = late_max_ms.max(c.ms);
+                }
+            }
         }
         match (sc, &out) {
             (Scn::Tcp(v), _) => {
@@ -872,6 +953,15 @@ was propagated; distinct by scenario text";
                     rep.count(&format!("tcp/up-bytes/{}", bucket(s.up)));
                     rep.count(&format!("tcp/down-bytes/{}", bucket(s.down)));
                     rep.count(&format!("tcp/chunking/{}", s.upc.text().split(':').next().unwrap_or("?")));
+                    if s.mode.is_late() {
+                        let fam = s.mode.text();
+                        let bulk = if s.mode == Mode::LateTarget { s.up } else { s.down };
+                        rep.count(&format!("tcp/{fam}/entry/{}", s.entry.text()));
+                        rep.count(&format!("tcp/{fam}/delay-ms/{}", s.slow_ms));
+                        rep.count(&format!("tcp/{fam}/bulk-KiB/{}", bulk / KIB));
+                        rep.count(&format!("tcp/{fam}/rcvbuf-KiB/{}", if s.rcvbuf == 0 { "default".to_string() } else { (s.rcvbuf / KIB).to_string() }));
+                        rep.count(&format!("tcp/{fam}/reader/{}", if s.pace_ms == 0 { "full-speed".to_string() } else { format!("pause-{}-ms-per-32-KiB", s.pace_ms) }));
+                    }
                     if s.mode.is_hold() {
                         let (n, c) = if s.mode == Mode::ClientFirstHold { (s.down, &s.downc) } else { (s.up, &s.upc) };
                         let k = c.sizes(n).len();
@@ -936,6 +1026,9 @@ was propagated; distinct by scenario text";
     rep.notes.push(format!(
         "dialogues after a half-close: {hold_msgs} messages written into a connection that was then kept open and idle until the other end had them; slowest {hold_max_ms} ms (bound {} ms)",
         io::prompt().as_millis()
+    ));
+    rep.notes.push(format!(
+        "late-reading peers: {late_conns} connection(s) where one end sent a short message (or nothing), half-closed at once, made its receive buffer small and began to read 0.3 .. 2.5 s later (slowly or at full speed) while the other end wrote 64 KiB .. 3 MiB, half-closed and closed; the late readers read {late_bytes} bytes, {late_clean} of {late_conns} got every byte followed by a clean end-of-stream; slowest connection {late_max_ms} ms"
     ));
     rep.notes.push(format!(
         "SOCKS5 UDP reply headers (all well-formed, payload recovered): DST.ADDR/DST.PORT named the remote host in {hdr_remote}, the local client's own address in {hdr_client}, something else in {hdr_other} replies"
